@@ -346,3 +346,5 @@ v("C18", "Dm14Server.py", "                0x7,\n", "                0x06,\n", "
 v("C17", "Dm14Query.py", "        values = []\n        for i in range(len(raw_bytes) // self.object_byte_size):", "        if self.object_byte_size == 1 and not self.signed:\n            return list(raw_bytes)\n        values = []\n        for i in range(len(raw_bytes) // self.object_byte_size):", "keep", "shortcut for unsigned bytes only")
 v("C17", "Dm14Query.py", "        values = []\n        for i in range(len(raw_bytes) // self.object_byte_size):", "        if self.object_byte_size == 1:\n            return list(raw_bytes)\n        values = []\n        for i in range(len(raw_bytes) // self.object_byte_size):", "break", "shortcut ignores signedness (seeded C17G)")
 v("C19,C18", "Dm14Server.py", "                self.pgn = pgn\n                self.sa = sa\n                self.status", "                self.pgn = pgn\n                self.status", "break", "requester address never stored in the IDLE arm")
+v("C04", CA, "        time_to_sleep = 0.500\n", "        pass\n", "break", "claim timer callback reads an unassigned local once the claim is done (deletion sweep)")
+v("C16", DM, "            priority = 7\n", "            pass\n", "break", "DM1 sender reads an unassigned local for messages longer than 8 bytes (deletion sweep)")
